@@ -107,7 +107,7 @@ let run (f : string list -> string -> string option * string list) =
           try f fields impl with e -> (Some ("driver-exception:" ^ Printexc.to_string e), []) in
         (match model with
          | Some m when norm m <> norm impl ->
-           incr diffs; Printf.printf "DIFF %d model=%s\n" !total (if String.length m > 300 then String.sub m 0 300 ^ "..." else m)
+           incr diffs; Printf.printf "DIFF %d model=%s\n" !total (if String.length m > 300 && Sys.getenv_opt "VERIF_FULL" = None then String.sub m 0 300 ^ "..." else m)
          | _ -> ());
         List.iter (fun m -> incr mons; Printf.printf "MON %d %s\n" !total m) fails
       end
